@@ -308,6 +308,10 @@ fn parse_txt_payload(payload: &str) -> Result<Vec<ScionIpAddr>, TxtParseError> {
         }
 
         remaining = rest[1..].trim();
+        // `address-list = address *( "," address )`: a separator must be followed by an address.
+        if remaining.is_empty() {
+            return Err(TxtParseError::ExpectedOpenBracket(remaining.to_string()));
+        }
     }
 
     Ok(addresses)
@@ -389,6 +393,12 @@ mod tests {
         let addrs = parse_txt_payload("[19-ff00:0:110,192.0.2.1] , [19-ff00:0:111,2001:db8::1]")
             .expect("valid payload");
         assert_eq!(addrs.len(), 2);
+    }
+
+    #[test]
+    fn parse_txt_payload_rejects_trailing_separator() {
+        assert!(parse_txt_payload("[19-ff00:0:110,192.0.2.1],").is_err());
+        assert!(parse_txt_payload("[19-ff00:0:110,192.0.2.1] , ").is_err());
     }
 
     #[tokio::test]
